@@ -130,6 +130,10 @@ pub fn run_history(base: &Path, h: &History, prop: Prop) -> Result<Stats, Fail> 
         let fault = step.fault.map(|(k, t)| fault_plan(k, t));
         let (mode_used, outcome) = w.compile(step.mode, &events, fault);
         st.compiles += 1;
+        if mode_used != Mode::SameSession {
+            // a new session knows nothing about the directory until its own first successful write
+            clean = false;
+        }
         if mode_used != Mode::FreshCli {
             st.operations_seen.push(w.last_operations_seen);
         }
